@@ -34,17 +34,22 @@ def main():
             'written_by': 'independent sub-agent given only the property '
                           'text and a scratch worktree',
             'repo_head': sh('git -C /repo rev-parse --short HEAD')[1].strip()}
-    code, out = sh('git -C /repo status --porcelain --untracked-files=no')
-    assert out.strip() == '', '/repo has uncommitted changes: ' + out
-    code, out = sh(f'git -C /repo apply {dst}/patch.diff')
-    assert code == 0, 'patch does not apply: ' + out
+    # a scratch copy of /repo (tracked files of HEAD + the patch), so that
+    # background runs that use /repo itself are not disturbed
+    scratch = '/tmp/seedeval.' + sid
+    shutil.rmtree(scratch, ignore_errors=True)
+    code, out = sh(f'git -C /repo worktree add -q --detach {scratch} HEAD')
+    assert code == 0, out
     try:
-        env = dict(os.environ, PYTHONPATH='/repo/src',
+        code, out = sh(f'git -C {scratch} apply {dst}/patch.diff')
+        assert code == 0, 'patch does not apply: ' + out
+        env = dict(os.environ, PYTHONPATH=f'{scratch}/src',
                    DECIMALFP_FORCE_PYTHON_IMPL='1')
-        code, out = sh('cd /repo && /venv/bin/python -m pytest -q -p '
-                       'no:cacheprovider -n 8 2>&1 | tail -1')
+        code, out = sh(f'cd {scratch} && PYTHONPATH={scratch}/src '
+                       '/venv/bin/python -m pytest -q -p '
+                       'no:cacheprovider -n 8 tests 2>&1 | tail -1')
         meta['tests_with_change'] = out.strip()
-        code, out = sh(f'cd /repo && /venv/bin/python {dst}/demo.py',
+        code, out = sh(f'cd {scratch} && /venv/bin/python {dst}/demo.py',
                        env=env)
         meta['demo_with_change'] = {'exit': code, 'tail': out[-600:]}
         res = {}
@@ -52,6 +57,7 @@ def main():
             t0 = time.time()
             code, out = sh(f'{VERIF}/check {p} --no-evidence',
                            env=dict(os.environ,
+                                    VERIF_REPO_SRC=f'{scratch}/src',
                                     VERIF_REPLAY_DIR=os.path.join(
                                         dst, 'replays')))
             viol = [l for l in out.splitlines()
@@ -62,12 +68,12 @@ def main():
                       'first_detail': detail[0][:700] if detail else None}
             print(p, 'exit', code, viol[:1])
         meta['checks_with_change'] = res
+        sh(f'git -C {scratch} checkout -- .')
+        code, out = sh(f'cd {scratch} && /venv/bin/python {dst}/demo.py',
+                       env=env)
+        meta['demo_without_change'] = {'exit': code, 'tail': out[-300:]}
     finally:
-        code, out = sh('git -C /repo checkout -- .')
-    code, out = sh(f'cd /repo && /venv/bin/python {dst}/demo.py',
-                   env=dict(os.environ, PYTHONPATH='/repo/src',
-                            DECIMALFP_FORCE_PYTHON_IMPL='1'))
-    meta['demo_without_change'] = {'exit': code, 'tail': out[-300:]}
+        sh(f'git -C /repo worktree remove --force {scratch}')
     meta['caught'] = meta['checks_with_change'][prop]['exit'] == 1
     meta['confirmed'] = (meta['demo_with_change']['exit'] == 1 and
                          meta['demo_without_change']['exit'] == 0 and
